@@ -172,6 +172,35 @@ def mc_property(v, tier, seed, name, prof, fields=mc_suite.ALL_FIELDS, noids=Fal
                     if dx and dy and int(dx.group(1)) > int(dy.group(1)):
                         return (f"run {k}: BFS reports `{x['hdr'].split()[2]}` at depth {dx.group(1)}, but a state at depth {dy.group(1)} "
                                 f"already fails: {y['T'][0][:400]}")
+        # (g) Normal ordering mode (no `cb mode mf` for this run): a pending timer is withheld only behind an earlier pending timer
+        #     of its process with a delay that is not larger; in MessagesFirst mode only while a message is pending
+        def dval(tok):
+            import struct
+            return struct.unpack(">d", bytes.fromhex(tok[1:]))[0] if tok.startswith("x") else int(tok) * 0.5
+        runs_g = mc_suite.split_runs(impl_out)
+        rl_g, cbs_g, k_g = [], [], 0
+        for l in lines:
+            if l.startswith("cb "):
+                cbs_g.append(l)
+            elif l.startswith(("run ", "runfrom ")):
+                rl_g.append((l, list(cbs_g))); cbs_g = []
+        for k_g, (rline, cbs) in enumerate(rl_g):
+            if k_g >= len(runs_g):
+                break
+            mf = any(c.startswith("cb mode mf") for c in cbs)
+            for l in runs_g[k_g]["E"]:
+                m = re.search(r" E\[(.*?)\] A\[(.*?)\] TM", l)
+                if not m:
+                    continue
+                evs = re.findall(r"(\d+):(M|T)\(([^()]*)\)", m.group(1))
+                avail = set(m.group(2).split(",")) if m.group(2) else set()
+                timers = [(int(i), a.split(",")) for i, kd, a in evs if kd == "T"]
+                anymsg = any(kd == "M" for _, kd, _ in evs)
+                for i, (pp, nm_, d) in timers:
+                    blocked = any(j < i and q == pp and dval(e) <= dval(d) for j, (q, _, e) in timers)
+                    if str(i) not in avail and not blocked and not (mf and anymsg):
+                        return (f"run {k_g} ({'MessagesFirst' if mf else 'Normal'} mode): timer {nm_} of {pp} (event {i}, delay {d}) is pending and no earlier "
+                                f"pending timer of {pp} has a delay <= its own, yet it is not offered: {l[:300]}")
         # (f) link controls by their documentation: directional disable, partition = both directions of every cross pair,
         #     node-level incoming / outgoing, disconnect = both, reset heals all, crash_node disconnects the node
         if not any(l.startswith("runfrom") for l in lines):
